@@ -6,6 +6,11 @@ BASE = json.load(open("/root/.vp/BASELINE.json"))["cmd"] if os.path.exists("/roo
     "cd /repo && /venv/bin/python -m pytest -ra -q -p no:cacheprovider --timeout=900 --continue-on-collection-errors"
 
 CLAIMED = {
+ "C09": dict(
+    technique="static analysis: interprocedural effect/alias analysis (flow-insensitive may-alias refined by reaching definitions at each sink) with an effect table for the kernels and callback contracts; scope analysis of the options binding; validation-before-loop and loop-shape rules",
+    text="Static, exhaustive over the ten entry points and the kkt_* factories: options is a local bound from kwargs before any use and forwarded to every wrapped entry point (op.solve forwards **kwargs); the option values are read once and validated with ValueError before the main loop with agreeing defaults; the main loops are bounded by maxiters; no in-place write (item/attribute store, augmented assignment, mutating method, kernel/callback output position) can reach an object that may share storage with an argument, the options dictionaries or F()'s results; no global/nonlocal writes and no module-level mutable state besides the options dictionaries. Bit-identical repeatability and thread independence are not decided as such - the absence of shared mutable state in the Python layer is.",
+    note="Trusted: the effect table in sa/effects.py (which argument positions BLAS/LAPACK/base/misc kernels and user callbacks write), cvxopt's copy semantics for slicing/arithmetic/constructors, CPython ast. C-level statics are outside this check.",
+    ref="DESIGN.md section 3, C09"),
  "C02": dict(
     technique="static analysis: guard-dominance of certificate returns (truth-table implication), structural equality of the residual's divisor with the reciprocal scaling factor of the returned vectors, documented-field table check, ordered finalisation, propagation through wrappers",
     text="Static, exhaustive over conelp's certificate branches and their propagation (lp/socp/sdp/op.solve): a certificate status is returned only under `res is not None and res <= feastol` for the residual it reports; that residual is divided by the same quantity whose reciprocal scales the returned vectors, under that quantity's sign test; the other half and the documented fields are None and the fixed objective is +-1; the returned cone vector is symmetrised and its slack recomputed and reported; wrappers test for None before slicing and op.solve copies status and values. It does NOT decide that the scaled vectors numerically satisfy h'z+b'y=-1 or the residual bound.",
